@@ -959,8 +959,11 @@ package desync
 //# index asks for, or panic in makeslice. The allocation below is therefore not bounded for every argument: the
 //# obligation fails and is listed as a known finding (which limit to enforce is a decision for the maintainers)
 //@ func NewNullChunk
-//@   prop C19
+//@   prop C19 C09 C10 C01
 //@   safety C19
+//@   pure
+//# what its callers rely on: a chunk of exactly the requested number of (zero) bytes whose ID is the digest of these bytes
+//@   ensures r0 != nil && len(r0.Data) == size && len(r0.Data) == idLen(r0.ID)
 
 //@ ghost var $short bool
 //@ func (d *FormatDecoder) Next
